@@ -1,6 +1,6 @@
 SPECIFICATION Spec
 CONSTANTS MaxRuns = 2
-  DataSets <- DataQuick
+  DataSets <- DataMC
   BranchLists <- BrQuick
   BufSizes = {1, 2, 1000}
   Edges1 <- E1
